@@ -11,7 +11,7 @@ ID=$1; TIER=${2:-${VERIF_TIER:-quick}}
 want=""
 case "$RACE_PROPS" in *" $ID "*) want=race;; esac
 build_vcheck $want >&2 || { echo "build failed for $ID (harness or /repo does not compile)" >&2; exit 3; }
-if [ "$ID" = C19 ] && [ "$TIER" = thorough ]; then
+if [ "$ID" = C19 ]; then
   UB=$(mktemp -d $VERIF_SCRATCH/verif-und-XXXXXX)
   sed 's#^module verifharness#module verifharness#' "$H/go.mod" > /dev/null
   (cd "$H" && go build $MODFILE -o "$UB/und" github.com/unification-com/mainchain/cmd/und) >&2 && export VERIF_UND_BIN="$UB/und"
